@@ -71,6 +71,14 @@ def build_det(d):
         m[a2] <<= pyrtl.MemBlock.EnabledWrite(~d_, we2)
         o = pyrtl.Output(2, 'o')
         o <<= m[a2]
+    elif k == 'two_roms':
+        # several ROMs (and a memory): whatever the emitters write per memory has an order to get wrong
+        a = pyrtl.Input(2, 'a')
+        r1 = pyrtl.RomBlock(3, 2, [1, 2, 3, 4], name='rom_b')
+        r2 = pyrtl.RomBlock(3, 2, [7, 6, 5, 4], name='rom_a')
+        r3 = pyrtl.RomBlock(3, 2, [0, 1, 0, 1], name='rom_c')
+        o = pyrtl.Output(3, 'o')
+        o <<= r1[a] ^ r2[a] ^ r3[a]
     elif k == 'mem_shared_we':
         # two write ports of one memory gated by the same enable wire (distinct addresses by construction: a and ~a)
         m = pyrtl.MemBlock(bitwidth=2, addrwidth=2, name='m', asynchronous=True, max_write_ports=None)
@@ -434,18 +442,30 @@ def run_determinism(case, ob, site):
         tr = concrete_trace(b) if kind in ('testbench', 'vcd', 'print_trace') else None
         return b, tr
     block, trace = fresh()
-    objs = sorted(block.wirevector_set, key=lambda w: w.name) + sorted(block.logic, key=lambda n: (n.dests[0].name if n.dests else '', n.op))
+
+    def objects(b):
+        mems_ = sorted({id(n.op_param[1]): n.op_param[1] for n in b.logic if n.op in 'm@'}.values(), key=lambda m: m.name)
+        return sorted(b.wirevector_set, key=lambda w: w.name) + sorted(b.logic, key=lambda n: (n.dests[0].name if n.dests else '', n.op)) + mems_
+    objs = objects(block)
     pairs = list(itertools.combinations(range(len(objs)), 2))
+    if case.get('sample') and any(hasattr(o, 'addrwidth') for o in objs):
+        # pairs of memories first: a sample of all pairs would rarely pick them
+        mi = [i for i, o in enumerate(objs) if hasattr(o, 'addrwidth')]
+        front = list(itertools.combinations(mi, 2))
+        pairs = front + [p_ for p_ in pairs if p_ not in front]
+    else:
+        front = []
     if case.get('sample'):
-        step = max(1, len(pairs) // case['sample'])
-        pairs = pairs[::step]
+        rest = pairs[len(front):]
+        step = max(1, len(rest) // case['sample'])
+        pairs = front + rest[::step]
     texts = set()
     npaths = 0
     for (i, j) in pairs:
         # firrtl rewrites the block in place: rebuild for every run
         def body():
             b, tr = fresh() if kind == 'firrtl' else (block, trace)
-            ob_list = sorted(b.wirevector_set, key=lambda w: w.name) + sorted(b.logic, key=lambda n: (n.dests[0].name if n.dests else '', n.op))
+            ob_list = objects(b)
             Ranked.memo = {}
             if kind == 'firrtl':
                 Ranked.setup(ob_list, [ob_list[i], ob_list[j]])
@@ -698,9 +718,20 @@ class BRanked(set, metaclass=_BSetMeta):
             cls.memo[(ib, ia)] = not r
         return cls.memo[k]
 
+    strrev = None      # when set (a symbolic Bool): sets of strings iterate in sorted or in reverse sorted order
+
     def _ordered(self):
         import functools
         items = list(set.__iter__(self))
+        if len(items) > 1 and all(isinstance(x, str) for x in items):
+            # a set of strings (names): its order follows the string hashes, i.e. PYTHONHASHSEED; two representative orders
+            base = sorted(items)
+            if BRanked.strrev is not None:
+                if 'strrev' not in BRanked.memo:
+                    BRanked.memo['strrev'] = bool(BRanked.strrev)
+                if BRanked.memo['strrev']:
+                    base.reverse()
+            return base
         return sorted(items, key=functools.cmp_to_key(lambda a, b: -1 if BRanked.less(a, b) else (1 if BRanked.less(b, a) else 0)))
 
     def __iter__(self):
@@ -815,7 +846,19 @@ def build_cond(d):
     return pyrtl.working_block()
 
 
+BLIF20 = ('.model top\n.inputs clk a[0] a[1] b[0] b[1] c\n.outputs s[0] s[1] q y\n'
+          '.names a[0] b[0] s[0]\n10 1\n01 1\n.names a[0] b[0] n\n11 1\n.names a[1] b[1] n s[1]\n100 1\n010 1\n001 1\n111 1\n'
+          '.latch n q re clk 0\n.names c q y\n11 1\n.end\n')
+
+
+def build_blif20(d):
+    """a design built by input_from_blif (several vector ports and scalar ports)"""
+    pyrtl.input_from_blif(BLIF20, merge_io_vectors=d.get('merge', True))
+    return pyrtl.working_block()
+
+
 designs.register_family('COND20', build_cond)
+designs.register_family('BLIF20', build_blif20)
 
 
 def all_texts(block):
@@ -875,6 +918,23 @@ def run_build_determinism(case, ob, site):
                 ob.fact('design-builds-and-exports-under-every-order', False, site + ':raises', detail=repr(p.exc))
             else:
                 texts.setdefault(p.result, (i, j))
+    # sets of strings (port names, ...): sorted vs reverse sorted iteration
+    BRanked.sym_rank, BRanked.memo, BRanked.constraints = {}, {}, []
+    BRanked.strrev = sym.SymBool(z3.Bool('brank_strrev'))
+    try:
+        def body2():
+            with build_order_env():
+                BRanked.memo = {}
+                return build_then(case)
+        paths = explore(body2, max_paths=8)
+    finally:
+        BRanked.strrev = None
+    npaths += len(paths)
+    for p in paths:
+        if p.exc is not None:
+            ob.fact('design-builds-and-exports-under-every-order', False, site + ':raises', detail=repr(p.exc))
+        else:
+            texts.setdefault(p.result, ('strings', 'reversed'))
     BRanked.sym_rank, BRanked.memo = {}, {}
     ob.paths += npaths
     ob.n += 1
@@ -1003,7 +1063,7 @@ def cases(tier, seed):
     out = [{'k': 'keys'}]
     dets = [{'fam': 'DET', 'kind': 'small'}, {'fam': 'DET', 'kind': 'bad_names'}, {'fam': 'DET', 'kind': 'tie_names', 'names': ['a1', 'a01']},
             {'fam': 'DET', 'kind': 'mem'}, {'fam': 'DET', 'kind': 'case_names'}, {'fam': 'DET', 'kind': 'mem3'},
-            {'fam': 'DET', 'kind': 'mem_shared_we'}]
+            {'fam': 'DET', 'kind': 'mem_shared_we'}, {'fam': 'DET', 'kind': 'two_roms'}]
     for d in dets:
         for e in EMITTERS:
             if e == 'firrtl' and d['kind'] in ('bad_names', 'mem'):
@@ -1011,7 +1071,7 @@ def cases(tier, seed):
             out.append(dict(d, k='determinism', emitter=e, sample=None if tier != 'quick' else 30))
     for d in [{'fam': 'COND20', 'kind': 'cond_chain'}, {'fam': 'COND20', 'kind': 'cond_nested'}, {'fam': 'COND20', 'kind': 'cond_mem'},
               {'fam': 'DET', 'kind': 'small'}, {'fam': 'DET', 'kind': 'mem'}, {'fam': 'DET', 'kind': 'bad_names'},
-              {'fam': 'DET', 'kind': 'mem3'}]:
+              {'fam': 'DET', 'kind': 'mem3'}, {'fam': 'BLIF20', 'kind': 'blif', 'merge': True}, {'fam': 'BLIF20', 'kind': 'blif_bits', 'merge': False}]:
         for ch in range(4):
             out.append(dict(d, k='build', sample=120 if tier == 'quick' else None, chunk=ch))
     # export AFTER a pass: the identifiers of the ports (they stand for the user's names) are the same in every run
